@@ -17,6 +17,12 @@ var ErrMorePacketsNeeded = errors.New("need more packets")
 var ErrNonStartingPacketAndNoPrevious = errors.New(
 	"received a non-starting fragment without any previous starting fragment")
 
+const (
+	// maximum size of a KLV unit, used to bound memory when
+	// neither the marker bit nor the declared length ends a unit.
+	maxUnitSize = 1 * 1024 * 1024
+)
+
 // Decoder is a RTP/KLV decoder.
 // Specification: RFC6597
 type Decoder struct {
@@ -136,6 +142,12 @@ func (d *Decoder) Decode(pkt *rtp.Packet) ([]byte, error) {
 			// The previous unit was incomplete
 			d.reset()
 			return nil, fmt.Errorf("incomplete KLV unit: timestamp changed from %d to %d", d.currentTimestamp, timestamp)
+		}
+
+		if (len(d.buffer) + len(payload)) > maxUnitSize {
+			errSize := len(d.buffer) + len(payload)
+			d.reset()
+			return nil, fmt.Errorf("KLV unit size (%d) is too big, maximum is %d", errSize, maxUnitSize)
 		}
 
 		// Append this packet's payload to the buffer
